@@ -112,6 +112,12 @@ VIEWS = [
     ('total > GLOB', lambda s: s['total'] > 40),
     ('total > CapGlob', lambda s: s['total'] > 40),
     ('total > capglob + low', lambda s: s['total'] > 140, ['Low = 100']),
+    # a variable that cannot be evaluated makes every filter that uses it unevaluable - also under `not` / `or` - and so excludes the merchant
+    ('not is_big', lambda s: False, ['is_big = total > "x"']),
+    ('is_big or total > 0', lambda s: False, ['is_big = total > "x"']),
+    ('total > 0 or is_big', lambda s: True, ['is_big = total > "x"']),          # short-circuit: the variable is never looked at
+    ('not (total > "x")', lambda s: False),
+    ('total > glob', lambda s: False, ['glob = total > "x"']),                   # an unevaluable local does not fall back to the global of that name
     # a later variable of the view uses an earlier one
     ('total > lim2', lambda s: s['total'] > 900, ['base = 100', 'lim2 = base * 9']),
     ('total > step3', lambda s: s['total'] > 41, ['step1 = glob', 'Step2 = step1 + 1', 'step3 = STEP2']),
